@@ -10,6 +10,7 @@ import (
 	"fmt"
 	"math/rand"
 	"sort"
+	"strings"
 
 	"verif/harness/internal/eng"
 	"verif/harness/internal/hx"
@@ -20,9 +21,10 @@ func init() { hx.Register("c01", func() hx.Property { return &c01{} }) }
 type c01 struct{}
 
 func (*c01) ID() string        { return "C01" }
-func (*c01) CoqImport() string { return engImport }
+func (*c01) CoqImport() string { return c01Import }
 
 const engImport = "From Helm Require Import Engine.Types Engine.Eff Engine.Ops Engine.Cluster Engine.Seq Run.RunEng."
+const c01Import = "From Helm Require Import Engine.Types Engine.Eff Engine.Ops Engine.Cluster Engine.Seq Run.RunC01."
 
 func (*c01) Rule() string {
 	return "40% generic: histories of 1-6 real operations (install/upgrade/rollback/uninstall, random flags atomic/cleanup-on-fail/keep-history/replace/" +
@@ -389,7 +391,33 @@ func engExecute(ci any) any {
 func (*c01) Execute(ci any) any { return engExecute(ci) }
 
 // the model has no error answer for a storage read: a history is compared up to its first read-faulted operation
-func (*c01) CoqCase(ci, oi any) string { return eng.CoqCase(eng.TruncateAtRFail(ci.(eng.History), oi.(eng.Obs))) }
+func (*c01) CoqCase(ci, oi any) string {
+	h, o := c01TruncateUnmodelled(ci.(eng.History), oi.(eng.Obs))
+	return eng.CoqCaseExt(h, o, nil, func(_ int, s eng.Step, def string) string {
+		if s.Op != nil && s.Op.RFail != nil {
+			// Engine/OpsR.v: the operation whose n-th storage read fails
+			return fmt.Sprintf("RRead %d %s", *s.Op.RFail, strings.TrimPrefix(def, "HOp "))
+		}
+		return "RS (" + def + ")"
+	}, "mkRCase")
+}
+
+// c01TruncateUnmodelled: a read fault is inside the model (Engine/OpsR.v, Run/RunC01.v) unless the same operation
+// also carries a crash point (a dying process and a failing read in one operation: the model's dead process still
+// answers reads); such a history is compared up to that operation and judged by the oracle from there on.
+func c01TruncateUnmodelled(h eng.History, o eng.Obs) (eng.History, eng.Obs) {
+	for i, s := range h.Steps {
+		if s.Op != nil && s.Op.RFail != nil && s.Op.Crash != nil {
+			h2, o2 := h, o
+			h2.Steps = h.Steps[:i]
+			if len(o2.Steps) > i {
+				o2.Steps = o2.Steps[:i]
+			}
+			return h2, o2
+		}
+	}
+	return h, o
+}
 
 func (*c01) Class(ci, _ any) string {
 	h := ci.(eng.History)
